@@ -108,6 +108,12 @@ Theorem c10_v2_funding_backed : forall (l : list op2) (r : crow2),
 Proof. exact v2_funding_backed. Qed.
 Print Assumptions c10_v2_funding_backed.
 
+(* account spending by an RHP4 token can always be attributed: the debit never panics *)
+Theorem c10_v2_account_spending_total : forall (l : list op2) (a : N) (u : usage2),
+  is_panic (debit2 (runs2 init2 l) a u) = false.
+Proof. exact v2_debit_total. Qed.
+Print Assumptions c10_v2_account_spending_total.
+
 (* The qualifier "not refreshed" is necessary: a refreshed contract carries its predecessor's
    revenue in its host output but starts with a fresh usage. *)
 Theorem c10_v2_refreshed_excluded : exists (l : list op2) (r : crow2),
